@@ -9,6 +9,10 @@
                                   -> as config, or `err ct=<constructor calls> rg=<RegisterScanners called> cf=..`
     run <next>/<err>/<flags>;...  (controller.run over scripted state functions: err of - g c d, flags of x p w)
                                   -> ev=<calls, SetIndexReports, waits> e=.. st=.. s=.. er=..
+    pindex <l.l.l> <limit> <sched>  (Index with LayerScanConcurrency = limit, the scanner goroutines run under the
+                                   schedule: comma list of `M` (main loop visits the next layer) and `<i><f>` (closure
+                                   number i, in hand-over order, takes its next step; f = - or a fault letter))
+                                  -> as index
     net up|down                   -> ok   (scanners flagged N return *net.AddrError while the network is down)
     index <l.l.l> <pos:f,...> <live|dead>
                                   -> e=.. s=.. st=.. er=.. b=.. sc=.. sr=.. n=.. t=..
@@ -19,6 +23,7 @@ import ClairModel.Model.Indexer
 import ClairModel.Model.IndexerExt
 import ClairModel.Model.StateToken
 import ClairModel.Model.RunClock
+import ClairModel.Model.ScanSched
 
 namespace Driver.Indexer
 open ClairModel ClairModel.Indexer
@@ -245,6 +250,18 @@ def runLine (spec : String) : String :=
     let ev := if evs.isEmpty then "-" else " ".intercalate (evs.map evStr)
     s!"ev={ev} e={errStr r} st={stateStr st.state} s={b01 st.success} er={b01 st.errSet}"
 
+def parseGrant (p : String) : Option ScanSched.Grant :=
+  if p == "M" then some { who := .main } else
+  let digits := p.toList.takeWhile Char.isDigit
+  let rest := String.ofList (p.toList.dropWhile Char.isDigit)
+  match (String.ofList digits).toNat?, rest with
+  | some i, "-" => some { who := .th i }
+  | some i, f => (parseFault f).map fun x => { who := .th i, f := x }
+  | none, _ => none
+
+def parseSched (s : String) : Option (List ScanSched.Grant) :=
+  if s == "-" then some [] else (s.splitOn ",").mapM parseGrant
+
 def stepLine (s : State) (l : String) : State × String :=
   if l == "reset" then ({}, "ok") else
   match Driver.words l with
@@ -258,6 +275,12 @@ def stepLine (s : State) (l : String) : State × String :=
     | _, _ => (s, "bad-op")
   | ["net", x] => ({ s with netDown := x == "down" }, "ok")
   | ["run", spec] => (s, runLine spec)
+  | ["pindex", ls, lim, sc] =>
+    match parseLayers ls, lim.toNat?, parseSched sc with
+    | some m, some limit, some sched =>
+      let r := ScanSched.indexSched sched limit s.off s.sem (fun _ => .ok) s.wd.cfg m s.wd.st false
+      ({ s with wd := { s.wd with st := r.st, scans := r.e.scans ++ s.wd.scans } }, renderIndex s.wd.cfg m r)
+    | _, _, _ => (s, "bad-op")
   | ["index", ls, sc, d] =>
     match parseLayers ls, parseScript sc with
     | some m, some script =>
